@@ -479,6 +479,47 @@ pub fn run(tier: Tier) -> i32 {
             rep.machinery_error("no pseudo-terminal could be opened".into());
         }
     }
+    // thorough: positions beyond 2^32 - 430 000 packets of another link with 10 000-byte payloads (4.3 GB, streamed) in
+    // front of a small stream; with the link filter the views show the small stream's rows, offsets shifted by the filler
+    if tier.is_thorough() {
+        let mut tail_pk = alphabet_stream(2, 0);
+        for p in tail_pk.iter_mut() {
+            p.rdh.link_id = 8;
+        }
+        let tail = stream::to_bytes(&tail_pk);
+        let mut fr = Rdh::base();
+        fr.link_id = 0;
+        fr.memory_size = 10_064;
+        fr.offset_next = 10_064;
+        let mut unit = fr.encode().to_vec();
+        unit.extend(std::iter::repeat(0x5Au8).take(10_000));
+        let times = 430_000usize;
+        let shift = (unit.len() * times) as u64;
+        let rows = |out: &[u8], shift: u64| -> Vec<String> {
+            strip_ansi(&String::from_utf8_lossy(out))
+                .lines()
+                .filter_map(|l| {
+                    let t = l.trim_start();
+                    let (off, rest) = t.split_once(':')?;
+                    let o = u64::from_str_radix(off.trim(), 16).ok()?;
+                    Some(format!("{:X}:{}", o.checked_sub(shift)?, rest.split_whitespace().collect::<Vec<_>>().join(" ")))
+                })
+                .collect()
+        };
+        for view in ["rdh", "its-readout-frames", "its-readout-frames-data"] {
+            let scratch = Scratch::new("c19big");
+            let a0 = vec![scratch.file("tail.raw", &tail).display().to_string(), "--filter-link".to_string(), "8".to_string(), "view".to_string(), view.to_string(), "-d".to_string()];
+            let small = Run::new(&a0).cwd(&scratch.path).run();
+            let a1: Vec<String> = vec!["--filter-link".into(), "8".into(), "view".into(), view.into(), "-d".into()];
+            let big = Run::new(&a1).cwd(&scratch.path).timeout_s(900).stdin_repeat(unit.clone(), times, tail.clone()).run();
+            let (rs, rb) = (rows(&small.stdout, 0), rows(&big.stdout, shift));
+            if big.crashed() || big.status != small.status || rs != rb || rs.is_empty() {
+                let i = rs.iter().zip(rb.iter()).position(|(x, y)| x != y).unwrap_or(rs.len().min(rb.len()));
+                rep.violation(Violation { signature: format!("view:rows-beyond-4-gib:{view}"), description: format!("view {view} of a small stream behind 4.3 GB of another link: exit {:?} vs {:?}; {} rows vs {} rows; first difference at row {i}: {:?} vs {:?}", big.status, small.status, rb.len(), rs.len(), rb.get(i), rs.get(i)), replay: json!({"kind": "beyond-4-gib", "view": view}) });
+            }
+        }
+        rep.cov("beyond_4_gib_views", json!(3));
+    }
     rep.cov("terminal_runs", json!(terminal_runs));
     rep.cov("neutral_option_runs", json!(neutral_runs));
     rep.cov("evaluations", json!(cases.len() as u64 * 2 + neutral_runs + terminal_runs));
